@@ -162,6 +162,24 @@ func checkMethod(c methodCase) evid.Outcome {
 				return evid.Fail("DecryptFRMPayload on port 0 left %T instead of decoded MAC commands", m.FRMPayload[0])
 			}
 		}
+		if f.FPort > 0 && len(f.FRM) > 0 {
+			// two frames that reference ONE payload object (the same application payload for two counters / devices)
+			shared := &lorawan.DataPayload{Bytes: append([]byte{}, f.FRM...)}
+			for i, fcnt := range []uint32{f.FCnt, f.FCnt + 1, f.FCnt} {
+				g := *f
+				g.FCnt = fcnt
+				q, _ := gen.ToLib(&g, false)
+				qm := q.MACPayload.(*lorawan.MACPayload)
+				qm.FRMPayload = []lorawan.Payload{shared}
+				if err := q.EncryptFRMPayload(gen.LibKey(k)); err != nil {
+					return evid.Fail("EncryptFRMPayload (shared payload object, frame %d): %v", i, err)
+				}
+				got, _ := gen.PayloadsToBytes(up, qm.FRMPayload)
+				if want := ref.Keystream(k, up, g.DevAddr, fcnt, f.FRM); !bytes.Equal(got, want) {
+					return evid.Fail("frame %d of three frames that reference one application payload object %x (FCnt %#x): EncryptFRMPayload gives %x, specification keystream gives %x (an earlier encryption changed the shared payload)", i, f.FRM, fcnt, got, want)
+				}
+			}
+		}
 		return evid.Outcome{NonTrivial: len(f.FRM) > 16, Class: fmt.Sprintf("frm/up=%v/port0=%v", up, f.FPort == 0)}
 	}
 	if err := p.EncryptFOpts(gen.LibKey(k)); err != nil {
